@@ -7,6 +7,10 @@
 (* for an extraction, exactly which attachment bytes must come out.                                   *)
 (* Non-ASCII characters are written <U+XXXX> in the strings below (TLC's disk state queue does not     *)
 (* preserve characters beyond 7 bits); the harness replaces them by the real characters.               *)
+(* Initial documents (Bases): "bare" (no Info dictionary), "info" (Info dictionary with standard      *)
+(* entries, nothing listed), "rich" (a document that ALREADY carries keywords - in the Info dictionary *)
+(* and in the catalog XMP metadata -, properties, page layout, page mode, viewer preferences and an     *)
+(* attachment before the first edit).  The harness builds the file from BaseDoc(base) byte by byte.     *)
 (* Mode "bfs": all histories of <= MaxLen steps over the actions of the families in Fams;             *)
 (* mode "sim" (-simulate): random histories of 1..MaxLen steps over all families.                     *)
 EXTENDS Doc, Json, Randomization
@@ -17,6 +21,8 @@ CONSTANTS Mode,      \* "bfs" | "sim"
           Mix,       \* bfs: histories up to this length mix the families
           Bases,     \* initial documents: "bare" (no Info dictionary), "info" (Info dictionary with standard entries)
           DeepBases,
+          ShallowBases, \* bfs: initial documents explored for one step only
+          DeepFams,  \* bfs: families explored beyond Mix steps
           Std,       \* TRUE: the property alphabet uses standard Info dictionary entries (Subject, Author)
           Emit
 VARIABLES base, hist, len
@@ -28,8 +34,9 @@ vars == <<docvars, base, hist, len>>
 Tok(text, parts, key) == [text |-> text, parts |-> parts, key |-> key]
 Plain(t) == Tok(t, {t}, t)
 KwToks == <<Plain("alpha"), Plain("Zo<U+00EB> <U+2713> <U+65E5><U+672C><U+8A9E>"), Plain("two words"), Tok("a,b;c", {"a", "b", "c"}, "a,b;c"),
-            Tok(" pad ", {"pad"}, "pad"), Plain("(par\\en)"), Plain("b"), Plain("<U+1F600> emoji")>>
-KwQuick == {2, 4, 5, 7}
+            Tok(" pad ", {"pad"}, "pad"), Plain("(par\\en)"), Plain("b"), Plain("<U+1F600> emoji"),
+            Plain("orig1"), Plain("orig two")>>
+KwQuick == {2, 4, 5, 7, 9, 10}
 
 PropKeys == IF Std THEN <<"Subject", "Custom", "Author", "My Key">>
             ELSE <<"Custom", "<U+041A><U+043B><U+044E><U+0447> (1)/x", "a#1b", "My Key">>
@@ -44,11 +51,27 @@ Fn2(k1, v1, k2, v2) == [x \in {k1, k2} |-> IF x = k1 THEN v1 ELSE v2]
 VPs == <<Fn1("HideToolbar", "true"), Fn2("HideToolbar", "false", "Direction", "R2L"), Fn2("NumCopies", "3", "Direction", "L2R"),
          Fn2("FitWindow", "true", "PrintScaling", "None")>>
 
-AttNames == <<"plain.txt", "Zo<U+00EB> <U+2713>.bin", "sp ace (1).dat", "<U+65E5><U+672C><U+8A9E> <U+1F600>.txt">>
-AttData  == <<"bin", "big", "empty", "text">>        \* byte contents are defined by the harness per id
+AttNames == <<"plain.txt", "Zo<U+00EB> <U+2713>.bin", "sp ace (1).dat", "<U+65E5><U+672C><U+8A9E> <U+1F600>.txt", "orig.txt">>
+AttData  == <<"bin", "big", "empty", "text", "orig">>        \* byte contents are defined by the harness per id
 AttDescs == <<"", "Beschreibung <U+00FC>, (x)">>
 Att(d, desc) == [data |-> d, desc |-> desc]
 AnQuick == {1, 2}
+AnRemove == {1, 2, 5}
+
+(* the initial documents: how the file is laid out (Info dictionary? XMP metadata carrying the keywords?) and  *)
+(* the metadata state it already has                                                                           *)
+Empty0 == [kw |-> {}, props |-> EmptyFn, layout |-> "", mode |-> "", vp |-> EmptyFn, att |-> EmptyFn]
+BaseDoc(b) ==
+  CASE b = "bare" -> [info |-> FALSE, xmp |-> FALSE, kwinfo |-> FALSE, st |-> Empty0]
+    [] b = "info" -> [info |-> TRUE, xmp |-> FALSE, kwinfo |-> FALSE, st |-> Empty0]
+    [] b = "xmpkw" -> \* the keywords live in the XMP metadata only
+                     [info |-> TRUE, xmp |-> TRUE, kwinfo |-> FALSE, st |-> [Empty0 EXCEPT !.kw = {"orig1", "orig two"}]]
+    [] b = "rich" -> [info |-> TRUE, xmp |-> TRUE, kwinfo |-> TRUE, st |->
+                        [kw |-> {"orig1", "orig two"},
+                         props |-> Fn2(PropKeys[1], "orig value (1)", PropKeys[4], "orig <U+00E4>"),
+                         layout |-> "TwoColumnLeft", mode |-> "UseOutlines",
+                         vp |-> Fn2("HideToolbar", "true", "Direction", "R2L"),
+                         att |-> Fn1("orig.txt", Att("orig", "original"))]]
 
 ---------------------------------------------------------------------------
 SeqOfSet(S) == SetToSeq(S)
@@ -101,7 +124,7 @@ NextView ==
 NextAtt ==
   \/ \E n \in AnQuick, d \in {1, 2} : DoAttAdd(Fn1(AttNames[n], Att(AttData[d], AttDescs[((n + d) % 2) + 1])))
   \/ DoAttAdd(Fn2(AttNames[1], Att("text", ""), AttNames[2], Att("empty", AttDescs[2])))
-  \/ \E n \in AnQuick : DoAttRemove({AttNames[n]}) \/ DoAttExtract({AttNames[n]})
+  \/ \E n \in AnRemove : DoAttRemove({AttNames[n]}) \/ DoAttExtract({AttNames[n]})
   \/ DoAttRemove({AttNames[1], AttNames[2]}) \/ DoAttRemoveAll \/ DoAttExtract({}) \/ DoAttExtract({AttNames[1], AttNames[3]}) \/ DoAttAdd(Fn1(AttNames[3], Att("text", AttDescs[2])))
 
 RS(S) == RandomElement(S)
@@ -122,10 +145,14 @@ NextSim ==
         \/ DoAttExtract({AttNames[i] : i \in is})
   \/ \E r \in {RS(1..2)} : (r = 1 /\ DoAttRemoveAll) \/ (r = 2 /\ DoAttExtract({}))
 
-Init == /\ base \in Bases /\ DocInit(<<>>) /\ hist = <<>>
-        /\ len \in (IF Mode = "sim" THEN 1..MaxLen ELSE IF base \in DeepBases THEN {MaxLen} ELSE {Mix})
+Init == /\ base \in Bases /\ hist = <<>>
+        /\ LET st == BaseDoc(base).st IN
+             /\ pages = <<>> /\ nblank = 0 /\ res = "ok" /\ ext = {}
+             /\ keywords = st.kw /\ props = st.props /\ layout = st.layout /\ mode = st.mode
+             /\ vprefs = st.vp /\ attach = st.att
+        /\ len \in (IF Mode = "sim" THEN 1..MaxLen ELSE IF base \in DeepBases THEN {MaxLen} ELSE IF base \in ShallowBases THEN {1} ELSE {Mix})
 (* beyond Mix steps a history stays within one family *)
-FamOK(f) == f \in Fams /\ (Len(hist) >= Mix => \A i \in 1..Len(hist) : FamOf(hist[i].op) = f)
+FamOK(f) == f \in Fams /\ (Len(hist) >= Mix => f \in DeepFams /\ \A i \in 1..Len(hist) : FamOf(hist[i].op) = f)
 Next == /\ Len(hist) < len
         /\ IF Mode = "sim" THEN NextSim
            ELSE \/ FamOK("kw") /\ NextKw
@@ -145,10 +172,14 @@ Isolated ==
   hist # <<>> =>
     LET op == hist[Len(hist)].op IN
     /\ res = "refuse" => TRUE
-    /\ (op \notin {"att_add", "att_remove"} /\ Len(hist) = 1 => attach = EmptyFn)
-    /\ (op \notin {"kw_add", "kw_remove"} /\ Len(hist) = 1 => keywords = {})
-    /\ (op \notin {"prop_add", "prop_remove"} /\ Len(hist) = 1 => props = EmptyFn)
+    /\ (op \notin {"att_add", "att_remove"} /\ Len(hist) = 1 => attach = BaseDoc(base).st.att)
+    /\ (op \notin {"kw_add", "kw_remove"} /\ Len(hist) = 1 => keywords = BaseDoc(base).st.kw)
+    /\ (op \notin {"prop_add", "prop_remove"} /\ Len(hist) = 1 => props = BaseDoc(base).st.props)
 
-Case == [base |-> base, steps |-> hist]
+InitListing(b) ==
+  LET st == BaseDoc(b).st IN
+  [kw |-> SetToSeq(st.kw), props |-> FnList(st.props), layout |-> st.layout, mode |-> st.mode, vp |-> FnList(st.vp),
+   att |-> SetToSeq({[name |-> n, desc |-> st.att[n].desc, data |-> st.att[n].data] : n \in DOMAIN st.att}), ext |-> <<>>]
+Case == [base |-> base, info |-> BaseDoc(base).info, xmp |-> BaseDoc(base).xmp, kwinfo |-> BaseDoc(base).kwinfo, init |-> InitListing(base), steps |-> hist]
 EmitCase == Emit /\ hist # <<>> /\ (Mode = "sim" => Len(hist) = len) => PrintT(<<"CASE", ToJson(Case)>>)
 =============================================================================
